@@ -327,6 +327,10 @@ func (g *Gen) updPath(cur string, path []pathStep, v string) string {
 	p := path[0]
 	if p.Field >= 0 {
 		ss := g.m.sortOf(p.T)
+		if g.m.opaque[ss] {
+			// a field of a struct from outside the verified module: the value becomes unknown
+			return g.declare("opq", ss)
+		}
 		var parts []string
 		for i := 0; i < p.St.NumFields(); i++ {
 			f := structGet(ss, fieldName(p.St, i), cur)
